@@ -7,6 +7,12 @@ use serde_json::{json, Value};
 use std::io::{BufRead, Write};
 
 mod builders;
+#[path = "../../kani/src/corpus_c03.rs"]
+mod corpus_c03;
+#[path = "../../kani/src/dec.rs"]
+mod dec;
+#[path = "../../kani/src/c03_gen.rs"]
+mod c03_gen;
 mod jsonref;
 mod laws;
 mod meta;
